@@ -16,7 +16,7 @@ length (odd or even, also longer than the recording) and every channel list with
 extracted waveform is exactly the zero-padded window. (Domain: `Rect A nch` is what makes `ChOK nch ch` say "a valid
 channel of THIS recording"; the proof does not use it because both sides read an absent cell as `0`, where the
 real code raises IndexError for a channel ≥ nch and is outside the property. A spike sample outside `[0, dur)` is
-outside the quantifier as well: the real code returns a window that is all padding.) -/
+outside the quantifier as well: the real code raises AssertionError (the stacked window has the wrong height).) -/
 theorem extract_eq_window (A : List (List α)) (nch : Nat) (_hrect : Rect A nch) (s : Int)
     (hs0 : 0 ≤ s) (hs : s < A.length) (n : Nat) (ch : List Int) (hch : ChOK nch ch) :
     extractWaveform A s n ch = window A s n ch :=
